@@ -68,27 +68,29 @@ const (
 
 // Outcome of a program.
 type Outcome struct {
-	Rejected bool   // statically invalid: the implementation must refuse to compile it
-	RejectWhy string
-	NonTerm  bool   // model step budget exceeded: program excluded
-	Unspec   bool   // the program left the semantics sheet (model raised an outside-sheet marker): not compared
-	Err      *ErrV  // raised error escaping the program
-	Val      string // Show() of the final value when no error
-	Type     string
-	Log      []string
-	Globals  map[string]string
+	Rejected    bool // statically invalid: the implementation must refuse to compile it
+	RejectWhy   string
+	NonTerm     bool   // model step budget exceeded: program excluded
+	ValueUnspec bool   // the log and error are defined but the value is not (duplicate map keys)
+	Unspec      bool   // the program left the semantics sheet (model raised an outside-sheet marker): not compared
+	Err         *ErrV  // raised error escaping the program
+	Val         string // Show() of the final value when no error
+	Type        string
+	Log         []string
+	Globals     map[string]string
 }
 
 type Interp struct {
-	Log     []string
-	Emits   int
-	steps   int
-	Budget  int
-	depth   int
-	unspec  bool
-	globals *Env
-	frames  []*frame
-	Host    map[string]func(in *Interp, args []Val) (Val, *Raise)
+	Log         []string
+	Emits       int
+	steps       int
+	Budget      int
+	depth       int
+	unspec      bool
+	valueUnspec bool
+	globals     *Env
+	frames      []*frame
+	Host        map[string]func(in *Interp, args []Val) (Val, *Raise)
 }
 
 type budgetExceeded struct{}
@@ -124,6 +126,7 @@ func Run(prog []*lang.N, budget int) (out Outcome) {
 	v, c, rs := in.block(prog, in.globals, true)
 	_ = c
 	out.Log = in.Log
+	out.ValueUnspec = in.valueUnspec
 	if in.unspec || (rs != nil && outsideClasses[rs.E.Class]) {
 		return Outcome{Unspec: true}
 	}
@@ -626,6 +629,9 @@ func (in *Interp) expr(e *lang.N, env *Env) (Val, *Raise) {
 			v, r := in.expr(e.A[i+1], env)
 			if r != nil {
 				return nil, r
+			}
+			if _, dup := m.M[k]; dup {
+				in.valueUnspec = true // which of two duplicate keys wins is not in the sheet
 			}
 			m.M[k] = v
 		}
@@ -1236,7 +1242,7 @@ func slice(cont, lo, hi Val, hasLo, hasHi bool) (Val, *Raise) {
 	if b < 0 {
 		b += n
 	}
-	if a < 0 || a > n || b < 0 || b > n || a > b {
+	if a < 0 || a >= n || b < 0 || b > n || a > b {
 		return nil, raise("slice-outside-sheet", "slice bounds")
 	}
 	if l != nil {
@@ -1403,6 +1409,9 @@ func (in *Interp) builtin(name string, args []Val) (Val, *Raise) {
 			if r != nil {
 				if outsideClasses[r.E.Class] {
 					in.unspec = true
+				}
+				if r.E.Class == "panic" || r.E.Class == "args error" {
+					return nil, r // fatal error classes pass through try
 				}
 				last = r.E
 				continue
